@@ -139,6 +139,7 @@ func Run(r *core.Run) {
 		p.MaxOperationTimeDelta = j.delta
 		j.v.set(&p)
 		app := mk(p)
+		appPolicy := operationapplier.New(p, operationparser.New(p, operationparser.WithAnchorTimeValidator(refuseWindows{})), doccomposer.New())
 		D := int64(j.delta)
 		for _, kt := range keyTypes {
 			create := ops.ValidCreate(recK[kt], updK[kt], []any{createPatch}, code, nil)
@@ -216,7 +217,13 @@ func Run(r *core.Run) {
 								listedU.UnpublishedOperations = append(append([]*operation.AnchoredOperation{}, prev.UnpublishedOperations...), an)
 								listedP.PublishedOperations = append(append([]*operation.AnchoredOperation{}, prev.PublishedOperations...), an)
 								for vi, rm := range []*protocol.ResolutionModel{prev, &listedU, &listedP} {
-									res, err := app.Apply(an, rm)
+									// (the second variant goes through an applier whose parser carries a request-time policy that refuses every
+									// window: what a node thinks of windows when a request arrives has no say over anchored operations)
+									ap := app
+									if vi == 1 {
+										ap = appPolicy
+									}
+									res, err := ap.Apply(an, rm)
 									det := ops.M{"request": string(b), "anchoring_time": t, "from": from, "until": until, "delta": D,
 										"config": j.v.name, "expected_effective": effective, "previous_state_variant": []string{"as created", "operation listed as unpublished", "operation listed as published"}[vi]}
 									fail := func(what string) *core.Fail {
@@ -300,4 +307,11 @@ func uniq(in []int64) []int64 {
 		}
 	}
 	return out
+}
+
+// refuseWindows is a request-time anchor time validator that refuses every window.
+type refuseWindows struct{}
+
+func (refuseWindows) Validate(from, until int64) error {
+	return fmt.Errorf("window %d-%d refused by this node's request policy", from, until)
 }
